@@ -5,6 +5,7 @@
 #include "simmath/internal/common.h"
 #include "simmath/internal/Spline.h"
 #include "simmath/internal/SplineFitter.h"
+#include "simmath/Differentiator.h"
 #include "mini_json.h"
 #include <fstream>
 #include <sstream>
@@ -49,6 +50,25 @@ template <class T> static void rootsFor(std::ostringstream& js, const mj::Value&
     emit("Vectorc", [&] { Vector_<C> v(n + 1); for (int i = 0; i <= n; ++i) v[i] = co[i]; Vector_<C> r(n); PolynomialRootFinder::findRoots(v, r); std::vector<C> o(n); for (int i = 0; i < n; ++i) o[i] = r[i]; return o; });
 }
 
+// C40: the quadratic map of a case as the three kinds of user function a Differentiator takes
+struct QuadMap {
+    int nf, ny; std::vector<double> A, B, C; mutable int calls = 0;
+    explicit QuadMap(const mj::Value& c) : nf((int)c["B"].size()), ny((int)c["xp"].size()) {
+        A.resize(nf * ny * ny); B.resize(nf * ny); C.resize(nf);
+        for (int i = 0; i < nf; ++i) { C[i] = c["C"][i].dbl();
+            for (int j = 0; j < ny; ++j) { B[i * ny + j] = c["B"][i][j].dbl(); for (int k = 0; k < ny; ++k) A[(i * ny + j) * ny + k] = c["A"][i][j][k].dbl(); } }
+    }
+    double eval(int i, const Vector& y) const { double v = C[i]; for (int j = 0; j < ny; ++j) { v += B[i * ny + j] * y[j]; for (int k = 0; k < ny; ++k) v += A[(i * ny + j) * ny + k] * y[j] * y[k]; } return v; }
+};
+struct QJac : public Differentiator::JacobianFunction { const QuadMap& m; QJac(const QuadMap& m, Real acc) : Differentiator::JacobianFunction(m.nf, m.ny, acc), m(m) {}
+    int f(const Vector& y, Vector& fy) const override { ++m.calls; fy.resize(m.nf); for (int i = 0; i < m.nf; ++i) fy[i] = m.eval(i, y); return 0; } };
+struct QGrad : public Differentiator::GradientFunction { const QuadMap& m; QGrad(const QuadMap& m, Real acc) : Differentiator::GradientFunction(m.ny, acc), m(m) {}
+    int f(const Vector& y, Real& fy) const override { ++m.calls; fy = m.eval(0, y); return 0; } };
+struct QScal : public Differentiator::ScalarFunction { const QuadMap& m; QScal(const QuadMap& m, Real acc) : Differentiator::ScalarFunction(acc), m(m) {}
+    int f(Real y, Real& fy) const override { ++m.calls; fy = m.eval(0, Vector(1, y)); return 0; } };
+static string jmat(const Matrix& M) { std::ostringstream o; o << "["; for (int i = 0; i < M.nrow(); ++i) { o << (i ? "," : "") << "["; for (int j = 0; j < M.ncol(); ++j) o << (j ? "," : "") << num(M(i, j)); o << "]"; } o << "]"; return o.str(); }
+static string jvec(const Vector& v) { std::ostringstream o; o << "["; for (int i = 0; i < v.size(); ++i) o << (i ? "," : "") << num(v[i]); o << "]"; return o.str(); }
+
 static string run(const mj::Value& c) {
     std::ostringstream js; const string kind = c["kind"].str();
     if (kind == "poly") {
@@ -77,6 +97,27 @@ static string run(const mj::Value& c) {
         js << "\"n\":" << (int)c["re"].size() - 1;
         rootsFor<double>(js, c, "double");
         if (c["float"].num()) rootsFor<float>(js, c, "float");
+    } else if (kind == "diff") {
+        QuadMap m(c); const double acc = c["acc"].dbl();      // -1: the default
+        Vector y(m.ny); for (int j = 0; j < m.ny; ++j) y[j] = c["xp"][j].dbl() / c["q"].dbl();
+        Vector fy(m.nf); for (int i = 0; i < m.nf; ++i) fy[i] = m.eval(i, y);
+        js << "\"f\":" << jvec(fy);
+        const Differentiator::Method meth[2] = {Differentiator::ForwardDifference, Differentiator::CentralDifference};
+        const char* mname[2] = {"forward", "central"};
+        for (int mi = 0; mi < 2; ++mi) {
+            QJac fj(m, acc); Differentiator dj(fj, c["asdefault"].num() ? meth[mi] : Differentiator::UnspecifiedMethod);
+            const Differentiator::Method arg = c["asdefault"].num() ? Differentiator::UnspecifiedMethod : meth[mi];
+            Matrix J; m.calls = 0; dj.calcJacobian(y, fy, J, arg); const int c1 = m.calls;
+            m.calls = 0; Matrix J2 = dj.calcJacobian(y, arg); const int c2 = m.calls;
+            js << ",\"" << mname[mi] << "\":{\"J\":" << jmat(J) << ",\"J2\":" << jmat(J2) << ",\"calls\":" << c1 << ",\"calls2\":" << c2
+               << ",\"stat\":[" << dj.getNumDifferentiations() << "," << dj.getNumDifferentiationFailures() << "," << dj.getNumCallsToUserFunction() << "]"
+               << ",\"order\":" << Differentiator::getMethodOrder(meth[mi]);
+            if (m.nf == 1) { QGrad fg(m, acc); Differentiator dg(fg); Vector g; m.calls = 0; dg.calcGradient(y, fy[0], g, meth[mi]); js << ",\"g\":" << jvec(g) << ",\"gcalls\":" << m.calls;
+                             js << ",\"g2\":" << jvec(dg.calcGradient(y, meth[mi])); }
+            if (m.nf == 1 && m.ny == 1) { QScal fs(m, acc); Differentiator ds(fs); Real d; m.calls = 0; ds.calcDerivative(y[0], fy[0], d, meth[mi]); js << ",\"d\":" << num(d) << ",\"dcalls\":" << m.calls;
+                             js << ",\"d2\":" << num(ds.calcDerivative(y[0], meth[mi])); }
+            js << "}";
+        }
     } else if (kind == "sinus") {
         // a sin(w t + p): w = j*pi/2, t integer, p chosen so that w t + p is the lattice angle of the case
         const double th = std::atan2(4.0, 3.0); const double j = c["j"].dbl(), t = c["t"].dbl();
